@@ -61,6 +61,7 @@ class Result:
         self.returns = []      # (block, state, value) of the entry frame
         self.diverged = []
         self.notes = []
+        self.loops = {}        # (body id, header block) -> {'fid', 'init', 'sym', 'init_mem', 'step', 'step_mem', 'epoch'}
 
 
 def root_of(lv):
@@ -850,6 +851,13 @@ class Interp:
             elif k == 'return':
                 rv = cur.env.get((fid, 0), UNIT)
                 returns.append((bi, cur, rv))
+        for (p, h) in back:
+            rec = self.res.loops.get((body['id'], h))
+            if rec is not None and rec['fid'] == fid and (p, h) in edge:
+                es = edge[(p, h)]
+                rec['step'].append({'pred': p, 'env': {l: es.env.get((fid, l)) for l in rec['sym']},
+                                    'mem': {k: v for k, v in es.mem.items() if k in rec['init_mem'] or (root_of(k)[0] == 'local' and root_of(k)[1] == fid and root_of(k)[2] in rec['sym'])},
+                                    'facts': set(es.facts)})
         if entry:
             self.res.returns = returns
         if not returns:
@@ -896,12 +904,17 @@ class Interp:
                     if not any(e['k'] == 'deref' for e in s['rv']['place']['proj']):
                         assigned.add(s['rv']['place']['l'])
         widened = set()
+        rec = {'fid': fid, 'init': {}, 'sym': {}, 'init_mem': {}, 'step': [], 'facts': set(st.facts)}
+        self.res.loops[(body['id'], header)] = rec
         for l in assigned:
             key = (fid, l)
             if key in st.env:
                 nv = ('opaque', next(self.counter), 'loop%s:_%s' % (header, l))
+                rec['init'][l] = st.env[key]
+                rec['sym'][l] = nv
                 st.env[key] = nv
             for k in [k for k in st.mem if root_of(k) == ('local', fid, l)]:
+                rec['init_mem'][k] = st.mem[k]
                 del st.mem[k]
         if writes_mem:
             # locals of *outer* frames / closure environments reachable through pointers are memory too
@@ -910,6 +923,7 @@ class Interp:
                     del st.mem[k]
             # address-taken locals of outer frames may be modified by inlined callees in the loop
             st.epoch = next(self.counter)
+        rec['epoch'] = st.epoch
         # facts stay: they are about values (terms), and loop-variant values are fresh terms
 
     def do_switch(self, st, fid, bi, t, g, edge):
